@@ -2,6 +2,7 @@
 C09 — property theorems. Model: `HydroVerif/Model/C09.lean`.
 -/
 import HydroVerif.Lemmas.C09
+import HydroVerif.Lemmas.C09Body
 
 namespace HydroVerif.C09
 
@@ -178,6 +179,83 @@ theorem splitFile_written (header : List Str) (cols : Str) (body : List Str)
     takeWhile_append_stop _ _ _ _ hh hc
   simp only [this, List.drop_left']
 
+
+/-! ### the table body: records written with minimal quoting are read back field by field -/
+
+/-- **record round trip**: whatever the text of the fields (commas, quotes, colons, hashes, even line breaks), the
+tokeniser recovers exactly the fields that were written, for any number of fields -/
+theorem parseRow_writeRow (fs : List Str) (h : fs ≠ []) : parseRow (writeRow fs) = fs := by
+  cases fs with
+  | nil => exact absurd rfl h
+  | cons f fs =>
+    have := writeRow_fold f fs []
+    simpa [parseRow] using this
+
+/-- a field is quoted exactly when it contains a comma, a quote or a line break; `#` and `:` never force quotes -/
+theorem quoteField_plain (f : Str) (h : ∀ c ∈ f, c ≠ ',' ∧ c ≠ '"' ∧ c ≠ '\n' ∧ c ≠ '\r') : quoteField f = f := by
+  have : needsQuote f = false := by
+    simp only [needsQuote, List.any_eq_false, special]
+    intro c hc
+    obtain ⟨h1, h2, h3, h4⟩ := h c hc
+    simp [h1, h2, h3, h4]
+  simp [quoteField, this]
+
+/-- a quoted field never ends the record early: the written text of one field contains no bare line break
+outside quotes — stated as: the tokeniser is in state `qq`, `unq` or `start` (never inside quotes) after it -/
+theorem field_closed (f : Str) (done : List Str) :
+    ((quoteField f).foldl pstep ⟨.start, [], done⟩).st ≠ .q := by
+  obtain ⟨st, h, h1, _⟩ := field_read f done
+  rw [h]; exact h1
+
+/-- admissible column name: no comma, quote or line break (the property: letters, digits, space, dash, underscore) -/
+def ColOk (n : Str) : Prop := ∀ c ∈ n, c ≠ ',' ∧ c ≠ '"' ∧ c ≠ '\n' ∧ c ≠ '\r'
+
+theorem writeRow_cols (names : List Str) (h : ∀ n ∈ names, ColOk n) (hne : names ≠ []) :
+    splitOnComma (writeRow names) = names := by
+  induction names with
+  | nil => exact absurd rfl hne
+  | cons n ns ih =>
+    have hn : ∀ c ∈ n, (c == ',') = false := fun c hc => beq_eq_false_iff_ne.mpr (h n (by simp) c hc).1
+    cases ns with
+    | nil =>
+      simp only [writeRow, quoteField_plain n (h n (by simp))]
+      exact splitOnComma_plain n hn
+    | cons m ms =>
+      simp only [writeRow, quoteField_plain n (h n (by simp))]
+      rw [splitOnComma_append n hn, ih (fun k hk => h k (by simp [hk])) (by simp)]
+
+/-- **column names**: the line `to_csv` writes for admissible column names is split back into exactly those names by
+the reader's `line.strip().split(",")`, provided the line as a whole does not begin or end with white space
+(first name not starting, last name not ending with a blank) -/
+theorem colnames_roundtrip (names : List Str) (h : ∀ n ∈ names, ColOk n) (hne : names ≠ [])
+    (hl : lstrip (writeRow names) = writeRow names) (hr : rstrip (writeRow names) = writeRow names)
+    (hline : writeRow names ≠ []) :
+    splitCols (writeRow names ++ ['\n']) = names := by
+  have hstrip : strip (writeRow names ++ ['\n']) = writeRow names := by
+    unfold strip
+    have h1 : lstrip (writeRow names ++ ['\n']) = writeRow names ++ ['\n'] := by
+      cases hw : writeRow names with
+      | nil => exact absurd hw hline
+      | cons c rest =>
+        have hc : isSpace c = false := by
+          by_contra hcon
+          have hcon' : isSpace c = true := by simpa using hcon
+          have : lstrip (c :: rest) = lstrip rest := by simp [lstrip, List.dropWhile, hcon']
+          rw [hw] at hl
+          rw [this] at hl
+          have hlen := congrArg List.length hl
+          have : (lstrip rest).length ≤ rest.length := by
+            unfold lstrip; exact (List.dropWhile_sublist _).length_le
+          simp at hlen; omega
+        exact lstrip_of_head c (rest ++ ['\n']) hc
+    rw [h1]
+    have h2 : rstrip (writeRow names ++ ['\n']) = rstrip (writeRow names) := by
+      simp [rstrip, List.dropWhile, isSpace]
+    rw [h2, hr]
+  unfold splitCols
+  rw [hstrip]
+  exact writeRow_cols names h hne
+
 /-! ### file names: the reader opens what the writer created -/
 
 theorem suffix_stem_zip (name : Str) (h : name ≠ []) :
@@ -252,5 +330,9 @@ example : readHeader (csvhead 3 2 [("site".toList, "a: b, #c".toList)] ["# autho
 example : stem "a.b.csv".toList = "a.b".toList ∧ suffix "a.b.csv".toList = ".csv".toList
     ∧ stem ".hidden".toList = ".hidden".toList ∧ suffix "x.".toList = [] := by decide
 example : writeTarget "data".toList true = ("data.zip".toList, some "data.csv".toList) := by decide
+example : writeRow ["a,b".toList, "say \"hi\"".toList, "#1: x".toList] = "\"a,b\",\"say \"\"hi\"\"\",#1: x".toList := by decide
+example : parseRow "\"a,b\",\"say \"\"hi\"\"\",#1: x,,3.5".toList = ["a,b".toList, "say \"hi\"".toList, "#1: x".toList, [], "3.5".toList] := by decide
+example : splitCols "flow rate,site-id,q_1\n".toList = ["flow rate".toList, "site-id".toList, "q_1".toList] := by decide
+example : (∀ n ∈ ["flow rate".toList, "q_1".toList], ColOk n) := by unfold ColOk; decide
 
 end HydroVerif.C09
